@@ -895,7 +895,7 @@ func main() {
 		"end_of_context_bound":                                         endBound.String(),
 		"end_of_context_control_measurement_slowest_of_64":             controlMax.String(),
 		"classes_of_the_main_sweep_whose_context_never_ends":           stuck.list(),
-		"main_sweep_cases_run_without_the_instants_after_the_end_of_the_context_because_their_class_never_sees_it": cutShort,
+		"main_sweep_cases_cut_short_in_stuck_classes":                  cutShort,
 		"accessor_lookups_after_context_end":                           lateLookups,
 		"cases_with_per_rpc_credentials":                               credsCases,
 		"cases_where_handler_saw_caller_and_credentials_joined":        sharedJoined,
@@ -912,7 +912,7 @@ func main() {
 			"DEADLINE EXPIRY: the same with a real short deadline of the caller that passes while the handler waits on ctx.Done(), over " + dlLayerSets + ". " +
 			"METADATA SWEEP, around each base case (3 bases x unary/stream x interceptors x other seven layers none/all): every triple of subsets of the key alphabet {ka (one value per source), kb (two values from NewOutgoingContext, two appended pairs, one from the credentials), authorization} given to NewOutgoingContext, to AppendToOutgoingContext and returned by the per-RPC credentials (9 = 8 subsets incl. credentials returning nothing + no credentials option) x lower/mixed-case spelling (each source spells a key differently) x 2 stacking orders (NewOutgoingContext after AppendToOutgoingContext discards the appended pairs). " +
 			"KEY ALPHABET SWEEP, around each base case (3 bases x unary/stream x interceptors x other seven layers none/all): each of the " + fmt.Sprint(len(keyAlphabet)) + " keys listed under grammar.key_alphabet (keys that look like protocol headers: grpc- prefix with and without -bin suffix, names grpc-go itself uses, HTTP header names, look-alikes of reserved names, pseudo headers; some that the standard transport forwards and some that it withholds) and all of them at once x every non-empty set of sources that carry the key {NewOutgoingContext (two values), AppendToOutgoingContext, per-RPC credentials} (withheld keys never from the credentials) x {alone, next to the ordinary key ka in every source} x lower/mixed spelling x 2 stacking orders; binary values for -bin keys. A forwarded key must reach the handler exactly like an ordinary key; of a withheld key nothing is demanded in the handler's incoming metadata, but ClientContext must show it. " +
-			"CANCEL PART (how a call stands when its caller's context ends), fully crossed: kind {unary, server-stream (stub = NewStream+SendMsg+CloseSend), client-stream, bidi-stream} x end of the caller's context {the caller cancels: no deadline / a far deadline next to it x the context passed to the call / an ancestor of it below value and metadata layers; a short real deadline passes} x what the handler does when that happens {waits on Done() of its context (stream.Context()), polls Err() of it, waits on Done() of a context.WithCancel child, polls Err() of a context.WithTimeout child, is blocked in RecvMsg (client not half-closed), is in a loop of SendMsg (kinds with a response stream)} x client has sent {0, 1} messages x {half-closed, not} (client-streaming kinds) x client from then on {blocked in Invoke / in a RecvMsg loop, does not touch the stream again} x interceptors x per-RPC credentials x 3 base contexts. Demanded: caller's deadline at entry, not done before the caller's context is, done after it is (Err() Canceled; DeadlineExceeded or Canceled after a deadline). The handler's goroutine reads the end of the caller's context off the caller's own context and from then on waits at most end_of_context_bound (max(20 s, 2000 x the slowest of 64 control measurements on this machine of a cancellation through a context derived from a wrapper type), then yields and 2 s more): a context that is still open then is reported as cancel-not-propagated, the check carries on; all cases of the part are in flight together, so that costs one bound in all. Classes (kind, interceptors, base, end, deadline, credentials) of the main sweep found like that are listed under classes_of_the_main_sweep_whose_context_never_ends and their cases run without the instants after the end of the context (counted in main_sweep_cases_run_without_...); a class the cancel part does not cover is found by the main sweep at the cost of one bound. A cancel case is non-trivial when the watched context was live when the handler began to watch it and was seen done afterwards. " +
+			"CANCEL PART (how a call stands when its caller's context ends), fully crossed: kind {unary, server-stream (stub = NewStream+SendMsg+CloseSend), client-stream, bidi-stream} x end of the caller's context {the caller cancels: no deadline / a far deadline next to it x the context passed to the call / an ancestor of it below value and metadata layers; a short real deadline passes} x what the handler does when that happens {waits on Done() of its context (stream.Context()), polls Err() of it, waits on Done() of a context.WithCancel child, polls Err() of a context.WithTimeout child, is blocked in RecvMsg (client not half-closed), is in a loop of SendMsg (kinds with a response stream)} x client has sent {0, 1} messages x {half-closed, not} (client-streaming kinds) x client from then on {blocked in Invoke / in a RecvMsg loop, does not touch the stream again} x interceptors x per-RPC credentials x 3 base contexts. Demanded: caller's deadline at entry, not done before the caller's context is, done after it is (Err() Canceled; DeadlineExceeded or Canceled after a deadline). The handler's goroutine reads the end of the caller's context off the caller's own context and from then on waits at most end_of_context_bound (max(20 s, 2000 x the slowest of 64 control measurements on this machine of a cancellation through a context derived from a wrapper type), then yields and 2 s more): a context that is still open then is reported as cancel-not-propagated, the check carries on; all cases of the part are in flight together, so that costs one bound in all. Classes (kind, interceptors, base, end, deadline, credentials) of the main sweep found like that are listed under classes_of_the_main_sweep_whose_context_never_ends and their cases run without the instants after the end of the context (counted in main_sweep_cases_cut_short_in_stuck_classes); a class the cancel part does not cover is found by the main sweep at the cost of one bound. A cancel case is non-trivial when the watched context was live when the handler began to watch it and was seen done afterwards. " +
 			"PINNED RE-USE PART (the caller changes the MD it gave to NewOutgoingContext immediately after the stub call returned, before anything that yields; one MD re-used for a series of calls with another value each), fully crossed: kind {unary, server-stream (stub = NewStream+SendMsg+CloseSend), client-stream, bidi-stream} x interceptors x series of 1, 2, 3 calls with one MD x {one context re-used, a context made of the same MD per call} x {MD alone, appended pairs on top} x {no credentials, per-RPC credentials} x change made right after each stub call {Set, write into the value slice in place, add a key, delete a key, append a value into spare capacity} x {each call completed right after the change, all calls completed after the last change} x first look of handler and interceptor at their metadata {at entry, only after the whole series through a kept context}; every look of every call must show the caller's outgoing metadata as it was when that stub call was made. This part runs in a child process pinned to one P (runtime.GOMAXPROCS(1), GODEBUG=asyncpreemptoff=1, GC off), where a goroutine started by the call cannot run before the caller blocks; each case is run twice after letting leftovers of earlier runs finish and the two runs must make identical observations (pinned_reuse_cases_with_identical_observations_twice; a pair that differs is repeated up to 4 times and reported as unstable if it still differs). " +
 			"Each case is a real call on a fresh inprocgrpc.Channel. The whole oracle (no caller value visible, incoming metadata = caller's outgoing joined with the credentials', in-process peer, own transport stream, caller's deadline, not done before the caller's context, ClientContext = the caller's context with all its values, chain of client contexts for nested calls) is evaluated inside the handler at entry, again while parked after the caller mutated in place / Set / deleted on the very map it gave to NewOutgoingContext, again after ctx.Done() (cancel or deadline), and again after the gate 'the caller's Invoke/RecvMsg has returned'; inside the interceptor at entry and after the handler returned. " +
 			"At every instant after the end of the context the accessors are looked up `lookups` times with runtime.Gosched() in between before the full oracle runs (work the library left to goroutines gets the processor; no clock). " +
